@@ -506,6 +506,33 @@ fn check_changes(ctx: &mut Ctx, op: Call, len: usize) {
     if cap.ops() != [dop] {
         ctx.violation("C13", &req, "apply_to_hook(Capture) does not reproduce the op".to_string());
     }
+    // … also when the capturing hook is reached through the crate's forwarding impls (`&mut D`, twice, and the
+    // finish-suppressing wrapper): a generic replay helper `fn replay<D: DiffHook>(ops, d: D)` called with `&mut capture`
+    {
+        let mut cap = Capture::new();
+        {
+            let mut r = &mut cap;
+            dop.apply_to_hook(&mut r).unwrap();
+        }
+        if cap.ops() != [dop] {
+            ctx.violation("C13", &req, format!("apply_to_hook(&mut &mut Capture) gives {} instead of the op", proto::show_ops(cap.ops())));
+        }
+        let mut cap = Capture::new();
+        {
+            let mut r = &mut cap;
+            let mut rr = &mut r;
+            dop.apply_to_hook(&mut rr).unwrap();
+        }
+        if cap.ops() != [dop] {
+            ctx.violation("C13", &req, format!("apply_to_hook(&mut &mut &mut Capture) gives {} instead of the op", proto::show_ops(cap.ops())));
+        }
+        let mut nf = similar::algorithms::NoFinishHook::new(Capture::new());
+        dop.apply_to_hook(&mut nf).unwrap();
+        let inner = nf.into_inner();
+        if inner.ops() != [dop] {
+            ctx.violation("C13", &req, format!("apply_to_hook(NoFinishHook(Capture)) gives {} instead of the op", proto::show_ops(inner.ops())));
+        }
+    }
     if want.len() >= 2 {
         ctx.nontrivial(&req);
     }
